@@ -208,6 +208,13 @@ def r_kind(ctx, rule='R-KIND'):
                         core = strip(a0[1]) if a0[0] == 'field' else ('unknown',)
                         while core[0] in ('try', 'downcast') or (core[0] == 'field' and core[2] == '0'):
                             core = strip(core[1])
+                        if core[0] == 'field':
+                            # a named field of a value returned by a call (`make(..)?.root.item`) is a call result like `.0`
+                            r0 = core
+                            while r0[0] in ('field', 'downcast', 'try'):
+                                r0 = strip(r0[1])
+                            if r0[0] == 'call':
+                                core = r0
                         if 'D' in ks and a0[0] == 'field' and a0[2] == 'item' and core[0] in ('var', 'phi', 'arg', 'field') and f.path.startswith(('writer::', 'parallel::')):
                             # `x.item` of a link whose kind is only known from `x.mode`: the sink needs a dominating test of that very node
                             ctx.bad(rule, key + '/unguarded', c.loc(), '`%s(%s)` in `%s` uses the id of a node link as %s id without a dominating test of that link\'s own mode: when the link is %s the wrong entry is addressed' % (
@@ -1027,7 +1034,7 @@ def r_tmp_apply(ctx, rule='R-TMP-APPLY'):
     F = ctx.F
     n = 0
     for f in F.lib_fns():
-        if not f.path.startswith('writer::Writer'):
+        if not f.path.startswith('writer::'):
             continue
         ins = [c for c in f.calls() if c.callee == 'parallel::TmpNodesReader::to_insert']
         dels = [c for c in f.calls() if c.callee == 'parallel::TmpNodesReader::to_delete']
@@ -1050,7 +1057,7 @@ def r_tmp_apply(ctx, rule='R-TMP-APPLY'):
             removers = []
             for fam in F.family(f):
                 for c in fam.calls():
-                    if c.callee.startswith('writer::Writer') and any('TmpNodes' in fam.local_ty(a['place']['l']) for a in c.args if a.get('k') in ('copy', 'move')):
+                    if c.callee.startswith('writer::') and any('TmpNodes' in fam.local_ty(a['place']['l']) for a in c.args if a.get('k') in ('copy', 'move')):
                         for g in F.resolve_call(c):
                             for h in F.reach([g]).values():
                                 if any(x.callee == 'parallel::TmpNodes::<DE>::remove' for x in h.calls()):
@@ -1072,7 +1079,7 @@ def r_tmp_apply(ctx, rule='R-TMP-APPLY'):
     # (ImmutableTrees) at the top of every round must have applied the previous round's TmpNodesReader first, otherwise
     # the next round works on stale nodes and overwrites the previous round's update of the same node
     for f in F.lib_fns():
-        if not f.path.startswith('writer::Writer'):
+        if not f.path.startswith('writer::'):
             continue
         prods = []
         for c in f.calls():
@@ -1093,7 +1100,7 @@ def r_tmp_apply(ctx, rule='R-TMP-APPLY'):
                           f.path, short(later[0].callee), short(pc.callee)))
     # every into_bytes_reader in the writer is followed by to_insert
     for f in F.lib_fns():
-        if not f.path.startswith('writer::Writer'):
+        if not f.path.startswith('writer::'):
             continue
         for fam in F.family(f):
             for c in fam.calls():
@@ -1112,13 +1119,49 @@ def r_tmp_apply(ctx, rule='R-TMP-APPLY'):
 
 
 # --------------------------------------------------------------------------- batch selector (C14 P1-P4)
+def _selection_struct(F, rt):
+    """name of a struct (named in the return type) that pairs an ImmutableLeafs with a RoaringBitmap, else None"""
+    for name, a in F.adts.items():
+        if a.get('kind') == 'Struct' and name.startswith(('parallel::', 'writer::')) and (name + '<') in rt:
+            tys = [fd['ty'] for v in a.get('variants', []) for fd in v.get('fields', [])]
+            if any('ImmutableLeafs<' in t for t in tys) and any('RoaringBitmap' in t for t in tys):
+                return name
+    return None
+
+
 def selector(F):
+    """the batch selector: the function handing back the frozen leafs of a batch together with the ids selected for it --
+    as a tuple or as a named struct"""
     out = []
     for f in F.lib_fns():
         rt = f.ret_ty()
+        if not rt.startswith('std::result::Result<'):
+            continue
         if 'ImmutableLeafs<' in rt and 'RoaringBitmap' in rt and rt.startswith('std::result::Result<('):
             out.append(f)
+        elif _selection_struct(F, rt) is not None and any(f.local_ty(l).startswith('&mut roaring') for l in f.arg_locals()):
+            out.append(f)
     return out
+
+
+def is_selected_ids(F, f, t, names):
+    """is term t the "selected ids" half of a batch selector's result: `.1` of the tuple, or the RoaringBitmap field of the
+    selection struct"""
+    t = strip(t)
+    if t[0] != 'field':
+        return False
+    calls = [x for x in walk(t) if x[0] == 'call' and x[1] in names]
+    if not calls:
+        return False
+    g = F.fn(calls[0][1])
+    st = _selection_struct(F, g.ret_ty()) if g is not None else None
+    if st is None:
+        return t[2] == '1'
+    for v in F.adts[st].get('variants', []):
+        for fd in v.get('fields', []):
+            if fd['name'] == t[2]:
+                return 'RoaringBitmap' in fd['ty']
+    return False
 
 
 def r_selector(ctx, rule='P-SELECT'):
@@ -1187,7 +1230,9 @@ def r_selector(ctx, rule='P-SELECT'):
         allthree = bool(pushes) and bool(maps) and bool(rems)
         cons = allthree and all(paths.must_pass(f, body, header, [c.bb]) for c in (pushes[0], maps[0], rems[0]))
         if rems and rems[0].callee.endswith('remove_smallest'):
-            cons = cons and const_eval(rems[0].arg_term(1)) == 1 and sel.callee.endswith('select') and const_eval(sel.arg_term(1)) == 0
+            # the smallest element is the one examined: `select(0)` or `min()`
+            cons = cons and const_eval(rems[0].arg_term(1)) == 1 and (
+                (sel.callee.endswith('select') and const_eval(sel.arg_term(1)) == 0) or sel.callee.endswith('RoaringBitmap>::min'))
         elif rems:
             cons = cons and paths.mentions_call(rems[0].arg_term(1), sel.bb)
         ctx.check(cons, rule, f.path + '/conservation', sel.loc(), 'a selected id is pushed to the batch, mapped to its leaf and removed from the candidates (same id)',
@@ -1206,10 +1251,18 @@ def r_selector(ctx, rule='P-SELECT'):
         for b, k, t in paths.ret_assigns(f):
             if k == 'ok':
                 tt = strip(dict(t[3])['0'])
+                parts = None
                 if tt[0] == 'tuple' and len(tt[1]) == 2:
-                    a = paths.agg_fields(tt[1][0], 'ImmutableLeafs')
-                    sl = root(tt[1][1])
-                    okr = a is not None and maps and same(a['leafs'], maps[0].arg_term(0)) and pushes and strip_all(tt[1][1]) == strip_all(pushes[0].arg_term(0))
+                    parts = (tt[1][0], tt[1][1])
+                elif tt[0] == 'agg' and _selection_struct(F, f.ret_ty()) is not None and len(tt[3]) == 2:
+                    # the named pair: the field holding the ImmutableLeafs and the field holding the bitmap
+                    lf = [v for n2, v in tt[3] if paths.agg_fields(v, 'ImmutableLeafs') is not None]
+                    ot = [v for n2, v in tt[3] if paths.agg_fields(v, 'ImmutableLeafs') is None]
+                    if len(lf) == 1 and len(ot) == 1:
+                        parts = (lf[0], ot[0])
+                if parts is not None:
+                    a = paths.agg_fields(parts[0], 'ImmutableLeafs')
+                    okr = a is not None and maps and same(a['leafs'], maps[0].arg_term(0)) and pushes and strip_all(parts[1]) == strip_all(pushes[0].arg_term(0))
         ctx.check(okr, rule, f.path + '/returns', f.loc(), 'returns (the leaf map, the selected set)', '`%s` does not return the leaf map together with the set of ids it selected' % f.path)
 
 
@@ -1237,7 +1290,7 @@ def r_worklist(ctx, rule='Q-WORKLIST'):
     names = [s.path for s in sels]
     n = 0
     for f in F.lib_fns():
-        if not f.path.startswith('writer::Writer'):
+        if not f.path.startswith('writer::'):
             continue
         for c in f.calls():
             if c.callee not in names:
@@ -1248,10 +1301,10 @@ def r_worklist(ctx, rule='Q-WORKLIST'):
             # the selected half is what gets routed; the remainder stays for the next round
             sel_uses = []
             for x in f.calls():
-                if x.callee.startswith('writer::Writer') and x.bb != c.bb:
+                if x.callee.startswith('writer::') and x.bb != c.bb:
                     for i in range(len(x.args)):
                         t = strip(x.arg_term(i))
-                        if t[0] == 'field' and t[2] == '1' and paths.mentions_call(t, c.bb):
+                        if is_selected_ids(F, f, t, names) and paths.mentions_call(t, c.bb):
                             sel_uses.append((x, i))
             ctx.check(bool(sel_uses), rule, key + '/selected-routed', c.loc(), 'the selected half of the batch is routed into the trees (%s)' % [short(x.callee) for x, i in sel_uses],
                       'in `%s` the ids selected by the batch selector are not handed to the tree update' % f.path)
@@ -1265,7 +1318,7 @@ def r_worklist(ctx, rule='Q-WORKLIST'):
                         loops_on_cand = bool(lp)
             remainder_passed = []
             for x in f.calls():
-                if x.callee.startswith('writer::Writer') and x.bb != c.bb and x.bb in f.reachable(c.target):
+                if x.callee.startswith('writer::') and x.bb != c.bb and x.bb in f.reachable(c.target):
                     for i in range(len(x.args)):
                         if root(x.arg_term(i)) == candt and candt[0] in ('var', 'phi'):
                             remainder_passed.append((x, i))
@@ -1277,7 +1330,7 @@ def r_worklist(ctx, rule='Q-WORKLIST'):
     ctx.floor(rule, 'batch selections in the writer', n, 2)
     # the over-full worklist loop: one id per iteration, results OR-ed back
     for f in F.lib_fns():
-        if not f.path.startswith('writer::Writer'):
+        if not f.path.startswith('writer::'):
             continue
         drv = worklist_drivers(f, names)
         for sel in drv:
@@ -1296,7 +1349,7 @@ def r_worklist(ctx, rule='Q-WORKLIST'):
             # set-union forms: `wl |= x`, `wl.extend(x)` (Extend<u32> inserts every element)
             ors = [c for c in f.calls() if len(c.args) == 2 and root(c.arg_term(0)) == wl and
                    (c.callee.endswith('bitor_assign') or c.callee.endswith('Extend::extend'))]
-            okor = bool(ors) and any(any(s[0] == 'call' and s[1].startswith('writer::Writer') for s in walk(c.arg_term(1))) for c in ors)
+            okor = bool(ors) and any(any(s[0] == 'call' and s[1].startswith('writer::') for s in walk(c.arg_term(1))) for c in ors)
             ctx.check(okor, rule, f.path + '/requeue', sel.loc(), 'buckets reported over-full by the remainder insertion are OR-ed back into the worklist',
                       'in `%s` buckets that became over-full while inserting the remainder are not put back on the worklist (they would stay above the capacity)' % f.path)
             # the node fetched is the examined id; the rebuilt subtree is remapped onto it
@@ -1311,7 +1364,7 @@ def r_worklist(ctx, rule='Q-WORKLIST'):
             # the remainder is re-inserted below the id the subtree was stored under (the examined bucket id), not below the
             # temporary root id the remap replaced (never stored)
             for x in f.calls():
-                if not (x.callee.startswith('writer::Writer') and x.bb in f.reachable(sel.target)):
+                if not (x.callee.startswith('writer::') and x.bb in f.reachable(sel.target)):
                     continue
                 g = F.fn(x.callee)
                 if g is None:
@@ -1359,6 +1412,21 @@ def r_progress(ctx, rule='Q-PROGRESS'):
                             t0 = strip(e[1])
                             if t0[0] == 'arg' and T.local_ty(t0[1]) == 'bool':
                                 gs.append((t0[1], e[2]))
+                            # the same switch spelled as a two-valued private enum: `policy == Policy::Variant`
+                            if t0[0] == 'binop' and t0[1] in ('Eq', 'Ne'):
+                                sides = [strip(t0[2]), strip(t0[3])]
+                                sides = [strip(x[1]) if x[0] == 'discr' else x for x in sides]
+                                par = [x for x in sides if x[0] == 'arg']
+                                var = [x for x in sides if x[0] == 'agg' and not x[3]]
+                                if len(par) == 1 and len(var) == 1:
+                                    gs.append((par[0][1], ('enum', var[0][2], (t0[1] == 'Eq') == e[2])))
+                        if e[0] == 'disc' and paths.edge_dominates(T, s0, x0, c.bb) and strip(e[1])[0] == 'discr' and strip(strip(e[1])[1])[0] == 'arg':
+                            pl0 = strip(strip(e[1])[1])[1]
+                            a0 = F.adts.get(T.local_ty(pl0).split('<')[0])
+                            if a0 and a0.get('kind') == 'Enum' and len(e[2]) == 1 and len(a0.get('variants', [])) == 2:
+                                names0 = {int(v['discr']) if v.get('discr') is not None else i: v['name'] for i, v in enumerate(a0['variants'])}
+                                if e[2][0] in names0:
+                                    gs.append((pl0, ('enum', names0[e[2][0]], True)))
                     site_guards.append((c, gs))
         # the constructor's own recursive calls work on strict subsets that may be tiny or empty: they must re-enable the
         # bucket shortcut (pass the constant that allows it), otherwise a forced split recurses into sets no plane can divide
@@ -1370,12 +1438,19 @@ def r_progress(ctx, rule='Q-PROGRESS'):
             if c.callee == T.path:
                 for pl, need in guard_params.items():
                     v = const_eval(c.arg_term(pl - 1))
+                    if isinstance(need, tuple):
+                        av = strip(c.arg_term(pl - 1))
+                        okv = av[0] == 'agg' and not av[3] and ((av[2] == need[1]) == need[2])
+                        ctx.check(okv, rule, '%s/recursive-call@%s' % (short(T.path), c.loc().split(':')[-2] if ':' in c.loc() else c.bb), c.loc(),
+                                  'the recursion lets a fitting subset become one bucket',
+                                  'a recursive call of `%s` keeps forcing a split (%s is not the variant that allows a bucket): subsets of one batch are split down to single items and an empty side makes the split routine fail' % (T.path, T.local_name(pl)))
+                        continue
                     ctx.check(v is not None and bool(v) == need, rule, '%s/recursive-call@%s' % (short(T.path), c.loc().split(':')[-2] if ':' in c.loc() else c.bb), c.loc(),
                               'the recursion lets a fitting subset become one bucket',
                               'a recursive call of `%s` keeps forcing a split (%s is not the constant %s): subsets of one batch are split down to single items and an empty side makes the split routine fail' % (
                                   T.path, T.local_name(pl), str(need).lower()))
         for W in F.lib_fns():
-            if not W.path.startswith('writer::Writer') or W.path == T.path:
+            if not W.path.startswith('writer::') or W.path == T.path:
                 continue
             for c in W.calls():
                 if c.callee != T.path:
@@ -1384,7 +1459,7 @@ def r_progress(ctx, rule='Q-PROGRESS'):
                 batch = None
                 for i in range(len(c.args)):
                     t = strip(c.arg_term(i))
-                    if t[0] == 'field' and t[2] == '1':
+                    if is_selected_ids(F, W, t, names):
                         for x in walk(t):
                             if x[0] == 'call' and x[1] in names:
                                 batch = x
@@ -1393,7 +1468,7 @@ def r_progress(ctx, rule='Q-PROGRESS'):
                 cand = root(batch[2][3])
                 later = []
                 for x in W.calls():
-                    if x.callee.startswith('writer::Writer') and x.bb != c.bb and x.bb in W.reachable(c.target):
+                    if x.callee.startswith('writer::') and x.bb != c.bb and x.bb in W.reachable(c.target):
                         for i in range(len(x.args)):
                             r = root(x.arg_term(i))
                             if r == cand or (r[0] == 'call' and cand[0] == 'call' and r[3] == cand[3]):
@@ -1404,8 +1479,42 @@ def r_progress(ctx, rule='Q-PROGRESS'):
                 key = '%s->%s' % (W.path, short(T.path))
                 good = False
                 why = 'the constructor can return a single bucket for a fitting batch whatever remains to be inserted'
+                def on_remainder_edge(blk):
+                    """truth of `cand.is_empty()` on the edge that dominates block blk (None when undecided)"""
+                    for s0, x0, e in paths.controlling_conds(W, blk):
+                        if e[0] == 'bool' and paths.edge_dominates(W, s0, x0, blk):
+                            at0 = strip(e[1])
+                            neg0 = False
+                            while at0[0] == 'unop' and at0[1] == 'Not':
+                                at0 = strip(at0[2])
+                                neg0 = not neg0
+                            if at0[0] == 'call' and at0[1].endswith('RoaringBitmap>::is_empty') and at0[2]:
+                                r = root(at0[2][0])
+                                if r == cand or (r[0] == 'call' and cand[0] == 'call' and r[3] == cand[3]):
+                                    return e[2] != neg0
+                    return None
+
                 def disabled(pl, need):
                     at = strip(c.arg_term(pl - 1))
+                    if isinstance(need, tuple):
+                        # enum-valued switch: the variant handed over when a remainder exists must not enable the shortcut
+                        import reader_rules as _rr
+                        alts = _rr.phi_defs(W, at) if at[0] == 'phi' else [(c.bb, at)]
+                        if not alts:
+                            return False
+                        seen_rem = False
+                        for blk, tt in alts:
+                            tv0 = strip(tt)
+                            if not (tv0[0] == 'agg' and not tv0[3]):
+                                return False
+                            enabled = (tv0[2] == need[1]) == need[2]
+                            emp = on_remainder_edge(blk) if at[0] == 'phi' else None
+                            if emp is True:
+                                continue           # chosen only when nothing remains
+                            seen_rem = True
+                            if enabled:
+                                return False
+                        return seen_rem
                     neg = False
                     while at[0] == 'unop' and at[1] == 'Not':
                         at = strip(at[2])
@@ -1490,6 +1599,32 @@ def r_memory_only(ctx, rule='R-MEMORY-HINT'):
                         elif u['k'] == 'switch':
                             # only the Some/None test of the Option itself
                             pass
+                # "for every value of the option": the hint is scaled without overflow-checked integer arithmetic (a huge hint
+                # must not panic or wrap); float scaling and saturating forms are fine
+                ovf = []
+                bodies = [(f, seen)]
+                for l in list(seen):
+                    for u in f.uses(l):
+                        if u['k'] == 'arg':
+                            for a in u['call'].args:
+                                if a.get('k') in ('copy', 'move'):
+                                    tt = strip(f.term(a))
+                                    if tt[0] == 'closure' and F.fn(tt[1]) is not None:
+                                        g = F.fn(tt[1])
+                                        bodies.append((g, None))
+                for g, locs in bodies:
+                    for blk2 in g.blocks:
+                        if blk2['cleanup']:
+                            continue
+                        for st2 in blk2['stmts']:
+                            rv2 = st2['rv']
+                            if rv2['k'] == 'binop' and (rv2['op'].endswith('WithOverflow') or rv2['op'] in ('Mul', 'Add', 'Shl')) and 'f' not in g.local_ty(st2['place']['l'])[:1]:
+                                ops = [o for o in (rv2.get('a'), rv2.get('b')) if isinstance(o, dict) and o.get('k') in ('copy', 'move')]
+                                if locs is None or any(o['place']['l'] in locs for o in ops):
+                                    if not g.local_ty(st2['place']['l']).startswith(('f32', 'f64')):
+                                        ovf.append('%s in %s' % (rv2['op'], g.path))
+                ctx.check(not ovf, rule, '%s/read#%d/no-overflow' % (f.path, n), '%s:%d' % (span['file'], span['line']), 'the hint is scaled in floating point / saturating arithmetic',
+                          'the available_memory hint goes through overflow-checked integer arithmetic (%s): a very large hint panics (or wraps) instead of meaning "plenty"' % ovf[:2])
                 ctx.check(ok and sink, rule, '%s/read#%d' % (f.path, n), '%s:%d' % (span['file'], span['line']), 'the memory hint only sizes the batch selector',
                           'in `%s` the available_memory option influences something other than the batch size (%s): the hint could change what a build produces' % (f.path, why or 'never reaches the selector'))
     ctx.floor(rule, 'reads of the available_memory option', n, 2)
@@ -1542,7 +1677,7 @@ def r_capacity(ctx, rule='R-CAPACITY'):
     be = C06.build_entry(F)
     n = 0
     for f in F.lib_fns():
-        if not f.path.startswith('writer::Writer'):
+        if not f.path.startswith('writer::'):
             continue
         sites = []
         for c in f.calls():
@@ -1625,7 +1760,7 @@ def r_drain(ctx, rule='R-DRAIN'):
     if not ctx.need(be is not None, rule, 'build entry'):
         return
     names = [s.path for s in selector(F)]
-    wl = [g for g in F.lib_fns() if g.path.startswith('writer::Writer') and worklist_drivers(g, names)]
+    wl = [g for g in F.lib_fns() if g.path.startswith('writer::') and worklist_drivers(g, names)]
     if not ctx.need(len(wl) >= 1, rule, 'worklist loop function'):
         return
     calls = [c for c in be.calls() if c.callee in [g.path for g in wl]]
@@ -1639,7 +1774,7 @@ def r_drain(ctx, rule='R-DRAIN'):
     # the worklist handed over contains what the insertion reported plus the new roots
     if calls:
         arg = calls[0].arg_term(len(calls[0].args) - 1)
-        srcs = [s for s in walk(arg) if s[0] == 'call' and s[1].startswith('writer::Writer')]
+        srcs = [s for s in walk(arg) if s[0] == 'call' and s[1].startswith('writer::')]
         ctx.check(bool(srcs), rule, be.path + '/worklist-source', calls[0].loc(), 'worklist = buckets reported over-full by the insertion step (+ new roots)',
                   'the worklist given to the re-splitting step is not the set reported by the insertion step')
 
@@ -1720,6 +1855,40 @@ def r_tree_count(ctx, rule='R-NTREES'):
         if t0[0] == 'call' and t0[1].endswith('::saturating_sub') and len(t0[2]) == 2:
             return paths.mentions_call(t0[2][1], site)     # `x - target` is a derivation, `target - x` is the allowed one
         return False
+    # "at least one tree when the choice is left to arroy" (reached only when the items do not fit in one bucket): every value
+    # returned on the automatic arm has a lower bound >= 1 in a small interval evaluation (constants, max, casts, joins, and
+    # `x` on the true edge of `x > y`)
+    def lower(term, depth=0):
+        t0 = strip(term)
+        if depth > 12:
+            return 0
+        c0 = const_eval(t0)
+        if isinstance(c0, int):
+            return max(c0, 0)
+        if t0[0] == 'cast':
+            return lower(t0[2], depth + 1)
+        if t0[0] == 'call' and t0[1].endswith(('::max', 'cmp::max', 'Ord::max')) and len(t0[2]) == 2:
+            return max(lower(t0[2][0], depth + 1), lower(t0[2][1], depth + 1))
+        if t0[0] == 'call' and t0[1].endswith(('::clamp',)) and len(t0[2]) == 3:
+            return max(lower(t0[2][1], depth + 1), 0)
+        if t0[0] == 'phi':
+            return min([lower(a, depth + 1) for a in t0[2]] or [0])
+        return 0
+    autos = [(b, tt) for b, k, tt in paths.ret_assigns(t) if not is_n(tt)]
+    worst = None
+    for b, tt in autos:
+        lb = lower(tt)
+        for s0, x0, e in paths.controlling_conds(t, b):
+            if e[0] == 'bool' and paths.edge_dominates(t, s0, x0, b):
+                c0 = strip(e[1])
+                if c0[0] == 'binop' and c0[1] in ('Gt', 'Lt'):
+                    big, small = (c0[2], c0[3]) if c0[1] == 'Gt' else (c0[3], c0[2])
+                    if e[2] and same(big, tt):
+                        lb = max(lb, lower(small) + 1)
+        if lb < 1:
+            worst = (b, tt)
+    ctx.check(bool(autos) and worst is None, rule, 'auto-at-least-one', t.loc(), 'the automatic tree count is bounded below by 1',
+              'the automatic tree count of `writer::target_n_trees` has no lower bound (%s can be 0, e.g. n / (n / dimensions + 1) with one dimension): an index that does not fit in one bucket can be built with no tree at all, and every search on it comes back empty' % (show(worst[1])[:70] if worst else '?'))
     derived = []
     for c in be.calls():
         for i in range(len(c.args)):
@@ -1728,14 +1897,14 @@ def r_tree_count(ctx, rule='R-NTREES'):
                 derived.append((c, show(t)[:80]))
     ctx.check(not derived, rule, 'target-unmodified', tc[0].loc(), 'the computed target is used as it is',
               'the build adjusts the target tree count after computing it (%s): an explicitly requested count would not be honoured' % [(short(c.callee), tt) for c, tt in derived][:2])
-    dele = [c for c in be.calls() if c.callee.startswith('writer::Writer') and any(is_target(c.arg_term(i)) for i in range(len(c.args)))]
+    dele = [c for c in be.calls() if c.callee.startswith('writer::') and any(is_target(c.arg_term(i)) for i in range(len(c.args)))]
     ctx.check(bool(dele), rule, 'target-used-for-deletion', tc[0].loc(), 'the target is handed to the extra-tree deletion (%s)' % [short(c.callee) for c in dele],
               'the target tree count is not used to delete extra trees')
     for c in dele:
         for g in F.resolve_call(c):
             subs = [x for x in g.calls() if x.callee.endswith('::saturating_sub')]
             rm = [x for x in g.calls() if x.callee.endswith(('::swap_remove', '::remove', '::pop'))]
-            dt = [x for x in g.calls() if x.callee.startswith('writer::Writer') and x.callee != g.path]
+            dt = [x for x in g.calls() if x.callee.startswith('writer::') and x.callee != g.path]
             def is_roots(t):
                 return any(y[0] == 'arg' and 'Vec<u32>' in g.local_ty(y[1]) for y in walk(t))
 
